@@ -75,6 +75,8 @@ struct MsgDef {
   bool legacy;                 // level written as circuit#level
   uint8_t zz;
   Message* msg = nullptr;
+  std::string cond;            // name of the condition the definition is subject to ("old": hw < 2, "new": hw >= 2)
+  bool isHw = false;           // the message the conditions refer to
 };
 struct UserDef { std::string name, secret; std::vector<std::string> levels; bool oneCell; };
 
@@ -86,9 +88,11 @@ struct C16World {
   std::string csv() const {
     std::string s = "type,circuit,level,name,comment,qq,zz,pbsb,id,*name,part,type,divisor/values,unit,comment\n";
     char b[256];
+    bool conds = false;
     for (auto& m : msgs) {
       std::string circ = m.circuit + (m.legacy && !m.level.empty() ? "#" + m.level : "");
-      snprintf(b, sizeof(b), "%s,%s,%s,%s,,%s,%02x,b509,%02x%02x,v,,UCH,,,\n", m.dir == 'u' ? "u" : m.dir == 'w' ? "w" : "r",
+      if (!m.cond.empty() && !conds) { conds = true; s += "*[old],c1,,hw,,v,,<2\n*[new],c1,,hw,,v,,>=2\n"; }
+      snprintf(b, sizeof(b), "%s%s,%s,%s,%s,,%s,%02x,b509,%02x%02x,v,,UCH,,,\n", m.cond.empty() ? "" : ("[" + m.cond + "]").c_str(), m.dir == 'u' ? "u" : m.dir == 'w' ? "w" : "r",
                circ.c_str(), m.legacy ? "" : m.level.c_str(), m.name.c_str(), m.dir == 'u' ? "10" : "", m.zz,
                m.dir == 'w' ? 0x0e : 0x0d, m.k);
       s += b;
@@ -111,7 +115,7 @@ struct C16World {
     std::string s = "default[" + std::to_string(defaultKind) + "]=" + defaultGranted() + " users:";
     for (auto& u : users) s += " " + u.name + "/" + u.secret + "=" + join(u.levels, ";");
     s += " msgs:";
-    for (auto& m : msgs) s += " " + std::string(1, m.dir) + ":" + m.circuit + "/" + m.name + "#" + m.level + (m.legacy ? "(legacy)" : "");
+    for (auto& m : msgs) s += " " + (m.cond.empty() ? "" : "[" + m.cond + "]") + std::string(1, m.dir) + ":" + m.circuit + "/" + m.name + "#" + m.level + (m.legacy ? "(legacy)" : "");
     return s;
   }
 };
@@ -151,6 +155,19 @@ static C16World buildWorld(Rng& r, const std::vector<std::pair<std::string, std:
     MsgDef b = a; b.k = k++; b.circuit = "c2"; b.level = r.chance(1, 4) ? "" : r.pick(POOL); w.msgs.push_back(b); }
   { MsgDef a; a.k = k++; a.circuit = "c1"; a.name = "rw"; a.level = r.chance(1, 4) ? "" : r.pick(POOL); a.dir = 'r'; a.legacy = false; a.zz = 0x08; w.msgs.push_back(a);
     MsgDef b = a; b.k = k++; b.dir = 'w'; b.level = r.chance(1, 4) ? "" : r.pick(POOL); w.msgs.push_back(b); }
+  if (r.chance(2, 3)) {
+    // conditional variants of one name with different levels: which one a name stands for depends on the last value of c1/hw
+    MsgDef h; h.k = k++; h.circuit = "c1"; h.name = "hw"; h.level = ""; h.dir = 'r'; h.legacy = false; h.zz = 0x08; h.isHw = true; w.msgs.push_back(h);
+    MsgDef a; a.k = k++; a.circuit = "c1"; a.name = "cv"; a.level = r.chance(1, 3) ? "" : r.pick(POOL); a.dir = 'r'; a.legacy = false; a.zz = 0x08; a.cond = "old";
+    MsgDef b = a; b.k = k++; b.cond = "new"; b.level = r.chance(1, 3) ? "" : r.pick(POOL);
+    if (r.chance(1, 2)) std::swap(a, b);
+    w.msgs.push_back(a); w.msgs.push_back(b);
+    if (r.chance(1, 2)) {      // and a conditional write pair
+      MsgDef c; c.k = k++; c.circuit = "c1"; c.name = "cw"; c.level = r.chance(1, 3) ? "" : r.pick(POOL); c.dir = 'w'; c.legacy = false; c.zz = 0x08; c.cond = r.chance(1, 2) ? "old" : "new";
+      MsgDef e = c; e.k = k++; e.cond = c.cond == "old" ? "new" : "old"; e.level = r.chance(1, 3) ? "" : r.pick(POOL);
+      w.msgs.push_back(c); w.msgs.push_back(e);
+    }
+  }
   if (planted) {
     // users/messages carrying the planted pairs (exhaustive mode): user pK gets the grant list, message xK the level
     int idx = 0;
@@ -180,7 +197,24 @@ struct C16Runner {
   std::string tag;
   long long checks = 0, granted = 0, denied = 0;
   bool failed = false;
+  int hwValue = -1;            // last value of c1/hw the daemon has seen
   C16Runner(C16World& w_, World& d_, Rng& r_, const std::string& t) : w(w_), d(d_), r(r_), tag(t) {}
+  /** whether the definition is the one its circuit/name currently stands for */
+  bool active(const MsgDef& m) const { return m.cond.empty() || (hwValue >= 0 && (m.cond == "old") == (hwValue < 2)); }
+  static bool special(const MsgDef& m) { return m.name == "dup" || m.name == "rw" || !m.cond.empty() || m.isHw; }
+  /** the daemon sees a new value of c1/hw on the bus (in a later second than the previous one) */
+  void setHw(int v) {
+    for (auto& m : w.msgs) if (m.isHw) {
+      vbus::g.now += 1500000000LL;
+      MasterSymbolString ms; SlaveSymbolString ss;
+      ms.push_back(0x10); ms.push_back(m.zz); ms.push_back(0xb5); ms.push_back(0x09); ms.push_back(2); ms.push_back(0x0d); ms.push_back((symbol_t)m.k);
+      ss.push_back(1); ss.push_back((symbol_t)v);
+      hwValue = v;
+      d.proto->injectMessage(ms, ss);
+      vbus::g.now += 1500000000LL;
+      st.n["condition_value_updates"]++;
+    }
+  }
 
   std::vector<MsgObs> snapshot() { std::vector<MsgObs> v; for (auto& m : w.msgs) v.push_back({m.msg->getPollPriority(), m.msg->getLastUpdateTime()}); return v; }
   const MsgDef* byId(const std::vector<uint8_t>& master) const {
@@ -224,7 +258,7 @@ struct C16Runner {
     if (acc) granted++; else denied++;
     if (!acc && !isErr(rep.text) && expectValue) {
       // a value came back: it may stem from another message of that name (other circuit) the client has access to
-      for (auto& o : w.msgs) if (&o != target && o.name == target->name && o.dir == target->dir && refAccess(o.level, grantedLv) && rep.text == valueOf(o)
+      for (auto& o : w.msgs) if (&o != target && o.name == target->name && o.dir == target->dir && o.circuit != target->circuit && refAccess(o.level, grantedLv) && rep.text == valueOf(o)
                                  && line.find("-c ") == std::string::npos) acc = true;
       if (acc) return;
     }
@@ -240,14 +274,24 @@ struct C16Runner {
     // bind messages
     for (auto& m : w.msgs) {
       m.msg = d.messages->find(m.circuit, m.name, "*", m.dir == 'w', m.dir == 'u');
+      if (!m.cond.empty()) {      // by ID (the name stands for whichever variant is active)
+        MasterSymbolString ms;
+        ms.push_back(0x31); ms.push_back(m.zz); ms.push_back(0xb5); ms.push_back(0x09); ms.push_back(m.dir == 'w' ? 3 : 2); ms.push_back(m.dir == 'w' ? 0x0e : 0x0d); ms.push_back((symbol_t)m.k);
+        if (m.dir == 'w') ms.push_back(0);
+        m.msg = d.messages->find(ms, false, true, true, true, false);
+      }
       if (!m.msg || m.msg->getLevel() != m.level) { fail("c16-world-not-loaded", m.circuit + "/" + m.name + " level '" + (m.msg ? m.msg->getLevel() : "?") + "'"); return; }
     }
-    d.proto->answer = [](const std::vector<uint8_t>& mb) -> std::vector<uint8_t> {
+    int hwK = -1;
+    for (auto& m : w.msgs) if (m.isHw) hwK = m.k;
+    d.proto->answer = [this, hwK](const std::vector<uint8_t>& mb) -> std::vector<uint8_t> {
+      if (mb.size() >= 7 && mb[5] == 0x0d && mb[6] == hwK) return {(uint8_t)hwValue};      // the device reports what it reported before
       if (mb.size() >= 7 && mb[5] == 0x0d) return {(uint8_t)(100 + mb[6])};
       return {};
     };
+    if (hwK >= 0) setHw(r.range(0, 3));
     // some messages have data already (seen passively / read by the daemon itself)
-    for (auto& m : w.msgs) if (m.dir != 'w' && r.chance(1, 2)) {
+    for (auto& m : w.msgs) if (m.dir != 'w' && m.cond.empty() && !m.isHw && r.chance(1, 2)) {
       MasterSymbolString ms; SlaveSymbolString ss;
       ms.push_back(m.dir == 'u' ? 0x10 : 0x31); ms.push_back(m.zz); ms.push_back(0xb5); ms.push_back(0x09); ms.push_back(2); ms.push_back(0x0d); ms.push_back((symbol_t)m.k);
       ss.push_back(1); ss.push_back((symbol_t)(100 + m.k));
@@ -278,8 +322,15 @@ struct C16Runner {
         bool unique = m.name != "dup";
         vbus::g.now += (int64_t)r.pick(std::vector<int>{0, 1, 2, 400}) * 1000000000LL;
         char hexid[32];
+        if (m.isHw) { if (r.chance(1, 2)) setHw(r.range(0, 3)); continue; }
+        if (!m.cond.empty() && !active(m)) {
+          // the value of c1/hw changes: from now on the name stands for this variant (or, half of the time, the turn of this one is skipped)
+          if (r.chance(1, 2)) continue;
+          setHw(m.cond == "old" ? r.range(0, 1) : r.range(2, 3));
+        }
+        if (!m.cond.empty()) st.n["commands_on_conditional_variants"]++;
         if (m.dir == 'r') {
-          int form = r.range(0, 6);
+          int form = m.cond.empty() ? r.range(0, 6) : r.range(0, 4);
           switch (form) {
             case 0: tcp(c, "read -f -c " + m.circuit + " " + m.name, gl, &m, true, true); break;
             case 1: tcp(c, "read -f " + m.name, gl, &m, true, unique); break;
@@ -291,7 +342,7 @@ struct C16Runner {
             default: snprintf(hexid, sizeof(hexid), "%02xb50902 0d%02x", m.zz, m.k); tcp(c, std::string("read -h ") + hexid, gl, &m, false, true); break;
           }
         } else if (m.dir == 'w') {
-          int form = r.range(0, 2);
+          int form = m.cond.empty() ? r.range(0, 2) : 0;
           switch (form) {
             case 0: tcp(c, "write -c " + m.circuit + " " + m.name + " " + std::to_string(r.range(0, 250)), gl, &m, false, true, true); break;
             case 1: snprintf(hexid, sizeof(hexid), "%02xb509030e%02x%02x", m.zz, m.k, r.range(0, 250)); tcp(c, std::string("write -h ") + hexid, gl, &m, false, true); break;
@@ -314,13 +365,15 @@ struct C16Runner {
         std::istringstream is(rep.text); std::string ln;
         while (std::getline(is, ln)) { size_t p = ln.find(" = "); if (p != std::string::npos) listed.insert(ln.substr(0, p)); }
         std::string sc(cmd);
+        const bool all = sc == "find -a";       // -a: also the definitions that are not available due to their condition
         for (auto& m : w.msgs) {
+          if (!all && !active(m)) continue;
           bool inList = listed.count(m.circuit + " " + m.name) > 0;
           bool acc = refAccess(m.level, gl);
           if (inList && !acc) {
             // another message of the same circuit/name (read vs write) may be the listed one
             bool other = false;
-            for (auto& o : w.msgs) if (&o != &m && o.circuit == m.circuit && o.name == m.name && refAccess(o.level, gl)) other = true;
+            for (auto& o : w.msgs) if (&o != &m && (all || active(o)) && o.circuit == m.circuit && o.name == m.name && refAccess(o.level, gl)) other = true;
             if (!other) fail("c16-listed-without-level", std::string("'") + cmd + "' as '" + c.user + "' [granted '" + gl + "'] lists " + m.circuit + "/" + m.name + "#" + m.level);
           }
           if (sc == "find -a" && acc && !inList) fail("c16-denied-although-level-granted", std::string("'") + cmd + "' as '" + c.user + "' [granted '" + gl + "'] misses " + m.circuit + "/" + m.name + "#" + m.level);
@@ -356,11 +409,12 @@ struct C16Runner {
           st.n["http_rejected"]++;
         } else {
           for (auto& m : w.msgs) {
+            if (!active(m)) continue;
             bool inList = rep.text.find("\"" + m.name + "\": {") != std::string::npos;
             bool acc = refAccess(m.level, glh);
             if (inList && !acc) {
               bool other = false;
-              for (auto& o : w.msgs) if (&o != &m && o.name == m.name && refAccess(o.level, glh)) other = true;
+              for (auto& o : w.msgs) if (&o != &m && active(o) && o.name == m.name && refAccess(o.level, glh)) other = true;
               if (!other) fail("c16-listed-without-level", "'" + line + "' [granted '" + glh + "'] returns " + m.circuit + "/" + m.name + "#" + m.level);
             }
             if (acc && !inList && hv != 2 && m.dir == 'r' && (extra.find("required") != std::string::npos || extra.find("maxage") != std::string::npos))
@@ -376,7 +430,8 @@ struct C16Runner {
       std::string gl = w.user("mqtt") ? w.granted("mqtt") : w.defaultGranted();
       StringReplacer topic; topic.parse(g_mqttTopic, true); topic.ensureDefault();
       for (auto& m : w.msgs) {
-        if (m.name == "dup" || m.name == "rw") continue;
+        if (m.name == "dup" || m.name == "rw" || m.isHw) continue;
+        if (!m.cond.empty() && !active(m)) { if (r.chance(1, 2)) continue; setHw(m.cond == "old" ? r.range(0, 1) : r.range(2, 3)); }
         std::string t = topic.get(m.circuit, m.name, "v");
         std::string dir = m.dir == 'w' ? "set" : "get";
         std::string data = m.dir == 'w' ? std::to_string(r.range(0, 250)) : (r.chance(1, 3) ? "?" + std::to_string(r.range(1, 9)) : "");
@@ -400,7 +455,7 @@ struct C16Runner {
         checks++;
         checkSideEffects("mqtt list", gl, before, sentFrom, "");
         for (size_t i = pubFrom; i < d.mqtt->published.size(); i++) for (auto& m : w.msgs) {
-          if (m.name == "dup" || m.name == "rw") continue;
+          if (special(m)) continue;
           if (d.mqtt->published[i].topic == topic.get(m.circuit, m.name, "v") || d.mqtt->published[i].topic == topic.get(m.circuit, m.name, "")) {
             if (!refAccess(m.level, gl)) fail("c16-sink-publishes-without-level", "mqtt list [sink levels '" + gl + "'] published " + d.mqtt->published[i].topic + " of " + m.circuit + "/" + m.name + "#" + m.level);
           }
@@ -453,7 +508,7 @@ struct C16Runner {
       if (d.mqttHandler && !waitMqttRuns(3)) { st.n["inconclusive_waits"]++; return; }
       size_t pubFrom = d.mqtt ? d.mqtt->publishedCount() : 0;
       std::vector<MsgDef*> updated;
-      for (auto& m : w.msgs) if (m.dir != 'w' && m.name != "dup" && m.name != "rw" && r.chance(2, 3)) { injectUpdate(m, (uint8_t)(1 + round * 7 + r.range(0, 5))); updated.push_back(&m); }
+      for (auto& m : w.msgs) if (m.dir != 'w' && !special(m) && r.chance(2, 3)) { injectUpdate(m, (uint8_t)(1 + round * 7 + r.range(0, 5))); updated.push_back(&m); }
       vbus::g.now += 2 * 1000000000LL;
       { RequestImpl sync(false); d.roundtrip(&sync, "info\n"); }
       // listeners
@@ -464,7 +519,7 @@ struct C16Runner {
         std::istringstream is(rep); std::string ln;
         while (std::getline(is, ln)) { size_t p = ln.find(" = "); if (p != std::string::npos) listed.insert(ln.substr(0, p)); }
         for (auto& m : w.msgs) {
-          if (m.name == "dup" || m.name == "rw") continue;
+          if (special(m)) continue;
           bool in = listed.count(m.circuit + " " + m.name) > 0, acc = refAccess(m.level, l.granted);
           bool upd = std::find(updated.begin(), updated.end(), &m) != updated.end();
           if (in && !acc) fail("c16-listed-without-level", "listening client '" + l.name + "' [granted '" + l.granted + "'] received " + m.circuit + "/" + m.name + "#" + m.level);
@@ -478,7 +533,7 @@ struct C16Runner {
         auto pubs = d.mqtt->publishedFrom(pubFrom);
         checks++;
         for (auto& m : w.msgs) {
-          if (m.name == "dup" || m.name == "rw") continue;
+          if (special(m)) continue;
           std::string t1 = topic.get(m.circuit, m.name, "v"), t2 = topic.get(m.circuit, m.name, "");
           bool pub = false;
           for (auto& p : pubs) if (p.topic == t1 || p.topic == t2) pub = true;
@@ -525,6 +580,8 @@ static void runC16(const vf::Args& a) {
     World d(wo);
     if (d.loadResult != RESULT_OK) { violation("c16-world-not-loaded", tag + " " + getResultCode(d.loadResult) + " " + d.loadError + " csv=" + wo.definitions); continue; }
     if (g_verbose) printf("WORLD %s\nACL\n%sCSV\n%s", w.str().c_str(), wo.acl.c_str(), wo.definitions.c_str());
+    { std::string err; result_t rr = d.messages->resolveConditions(false, &err);
+      if (rr != RESULT_OK) { violation("c16-world-not-loaded", tag + " resolveConditions " + getResultCode(rr) + " " + err + " csv=" + wo.definitions); continue; } }
     C16Runner run(w, d, r, tag);
     run.run();
     if (!run.failed && a.num("threads", 0) != 0 && (ci % (long)a.num("threads", 1)) == 0) run.threadedPhase();
